@@ -329,3 +329,24 @@ class Rng(random.Random):
 def make_rng(pid, seed, stream=''):
     h = hashlib.sha256(('%s|%s|%s' % (pid, seed, stream)).encode()).digest()
     return Rng(int.from_bytes(h[:8], 'big'))
+
+
+def coq_dump_many(name, header, terms, batch=50, timeout=600):
+    """Evaluate many terms (vm_compute) in parallel batches; returns a list with one parsed value
+    per term (None where the evaluation failed) and a list of error strings."""
+    chunks = [(k, terms[k:k + batch]) for k in range(0, len(terms), batch)]
+    out = [None] * len(terms)
+    errors = []
+
+    def one(kc):
+        k, chunk = kc
+        val = coq_dump('%s_%d' % (name, k // batch), header, '[' + ';\n'.join(chunk) + ']', timeout=timeout)
+        return k, chunk, val
+
+    with ThreadPoolExecutor(max_workers=min(14, max(1, len(chunks)))) as ex:
+        for k, chunk, val in ex.map(one, chunks):
+            if not isinstance(val, list) or len(val) != len(chunk):
+                errors.append('Coq evaluation failed for %s batch %d: %r' % (name, k // batch, str(val)[:400]))
+                continue
+            out[k:k + len(chunk)] = val
+    return out, errors
